@@ -14,7 +14,7 @@ FWS = ["base", "pydantic", "sqlmodel", "attrs", "dataclasses"]
 POOL = [f"s{i:02d}" for i in range(18)]
 LEN_CLASSES = {"short": None, "len19": "y" * 19, "len20": "y" * 20, "len21": "y" * 21}
 CO = ["none", "null", "absent", "pseudo_int", "pseudo_mix"]
-ESC_SYMBOLS = ['"', "'", "\\", "\n", ",", "é", "a", "\U0001F600"]
+ESC_SYMBOLS = ['"', "'", "\\", "\n", ",", "é", "a", "\U0001F600", "\u2028", "\x85"]
 
 
 def _cases(tier):
@@ -25,8 +25,10 @@ def _cases(tier):
             if n == 0 and lc != "short":
                 continue
             for co in CO:
-                for arrival in ("samples", "list"):
-                    if arrival == "list" and co == "absent":
+                for arrival in ("samples", "list", "two_lists"):
+                    if arrival in ("list", "two_lists") and co == "absent":
+                        continue
+                    if arrival == "two_lists" and n < 2:
                         continue
                     yield {"k": "limit", "n": n, "len": lc, "co": co, "arrival": arrival, "ms": list(ms),
                            "fws": FWS if tier != "quick" or co in ("none", "pseudo_mix") else ["pydantic", "attrs", "dataclasses"]}
@@ -34,6 +36,8 @@ def _cases(tier):
     strs = ["".join(t) for k in range(1, L + 1) for t in itertools.product(ESC_SYMBOLS, repeat=k)]
     for s in strs:
         yield {"k": "esc", "strings": [s]}
+        if len(s) <= 2:
+            yield {"k": "esc", "strings": [s], "nested": True}
     sub = strs[:8] + strs[8:72:4][:16]
     for a, b in itertools.combinations(sub, 2):
         yield {"k": "esc", "strings": [a, b]}
@@ -64,6 +68,11 @@ def _samples(case, strs):
     if case.get("arrival", "samples") == "list":
         vals = list(strs) + [e for e in extra]
         return [{"a": vals}] if vals else [{"a": []}]
+    if case.get("arrival") == "two_lists":
+        # two list-valued samples sharing all but their last string (long common prefix of the sorted values)
+        first = list(strs[:-1]) + list(extra)
+        second = list(strs[:-2]) + [strs[-1]]
+        return [{"a": first}, {"a": second}]
     out = [{"a": s} for s in strs]
     for e in extra:
         out.append({} if e == "<absent>" else {"a": e})
@@ -88,12 +97,14 @@ def _has_str(h):
     return any(_has_str(a) for a in typing.get_args(h) or ())
 
 
-def _render_and_read(samples, fw, m):
+def _render_and_read(samples, fw, m, nested=False):
+    if nested:   # the literal position sits in a non-root class of the nested layout
+        samples = [{"n": s, "top": 1} for s in samples]
     b = pipeline.build(samples, types=pipeline.DEFAULT_TYPES)
     kw = {} if m is None else {"max_literals": m}
-    text = pipeline.render(b.reg, fw, "flat", **kw)
+    text = pipeline.render(b.reg, fw, "nested" if nested else "flat", **kw)
     with program.Program(text, fw) as prog:
-        hints = prog.hints(("Root",))
+        hints = prog.hints(("Root", "N") if nested else ("Root",))
     return hints.get("a"), text
 
 
@@ -109,7 +120,7 @@ def execute(case):
                     samples_e = [{"a": [strs[i] for i in grp]} for grp in case["lists"]]
                 else:
                     samples_e = [{"a": s} for s in strs]
-                h, text = _render_and_read(samples_e, fw, None)
+                h, text = _render_and_read(samples_e, fw, None, nested=bool(case.get("nested")))
                 execs += 1
             except Exception as e:
                 viol.append(core.viol("module_with_literal_does_not_load", fw if fw != "sqlmodel" else "pydantic", shape, f"{strs!r}: {type(e).__name__}: {e}"))
@@ -118,7 +129,7 @@ def execute(case):
             got = set().union(*lits) if lits else None
             if got != set(strs) and not (len(set(strs)) < len(strs) and got == set(strs)):
                 viol.append(core.viol("literal_values_differ_from_observed_strings", fw if fw != "sqlmodel" else "pydantic",
-                                      shape + (["wrapped_sets"] if case.get("lists") else []), f"observed {strs!r}, annotation {h!r}"))
+                                      shape + (["wrapped_sets"] if case.get("lists") else []) + (["nested"] if case.get("nested") else []), f"observed {strs!r}, annotation {h!r}"))
                 break
             obs.append("esc-ok")
         return {"obs": list(set(obs)) or ["esc-bad"], "viol": viol, "execs": execs, "trans": execs, "outcome": "esc", "show": repr(strs),
